@@ -108,14 +108,26 @@ Proof.
     inversion H; subst; (split; [reflexivity|]); rewrite ?an_tarpit; cbn [authname]; exact Hb.
 Qed.
 
+Lemma subm_gate_auth s al s1 pre : subm_gate o s = (al, s1, pre) ->
+  authname s1 = authname s /\ (pre = [] \/ pre = [Reply 421]).
+Proof.
+  unfold subm_gate. destruct (o_submission o); [apply relay_decide_auth|]. intros H; inversion H; subst. auto.
+Qed.
+
 Lemma h_from_auth s arg len evs h s' : h_from o s arg len = (evs, h, s') -> has_note evs = false /\ authname s' = authname s.
 Proof.
   unfold h_from. intros H.
-  repeat (match type of H with
-          | context [match ?x with _ => _ end] => destruct x eqn:?
-          | context [if ?x then _ else _] => destruct x eqn:?
-          end; try discriminate);
-    inversion H; subst; (split; [reflexivity|]); rewrite ?an_tarpit; reflexivity.
+  destruct (o_addr o false arg) as [| | |addr more cls]; [inversion H; subst; split; reflexivity| | |];
+    (match type of H with context [subm_gate o ?sc] =>
+       destruct (subm_gate o sc) as [[al s1] pre] eqn:Eg; destruct (subm_gate_auth _ _ _ _ Eg) as (Hb & Hpre) end);
+    cbn [authname] in Hb;
+    (destruct pre as [|p pre'];
+     [|inversion H; subst; destruct Hpre as [E|E]; [discriminate|]; inversion E; subst; split; [reflexivity|exact Hb]]);
+    repeat (match type of H with
+            | context [match ?x with _ => _ end] => destruct x eqn:?
+            | context [if ?x then _ else _] => destruct x eqn:?
+            end; try discriminate);
+    inversion H; subst; (split; [reflexivity|]); rewrite ?an_tarpit; cbn [authname]; exact Hb.
 Qed.
 
 Lemma h_data_auth f s evs h s' : h_data f o s = (evs, h, s') -> has_note evs = false /\ authname s' = authname s.
